@@ -129,6 +129,17 @@ def real_runs(chk, rng):
             carried = {} if int_round[0] % 2 else {'velocity': rng.choice([0.3, 5.0, 11])}
             ip = Profile.round(diameter=30e-3, temperature=1473.15, material=["C45", "steel"], length=1, **carried)
             ctx = [RollPass.Profile.flow_stress(flow_stress)]
+            if int_round[0] % 2 == 0:
+                # a plug-in that merely observes velocities: pass-through wrappers registered on the generic unit profiles (base classes of the pass profiles)
+                from pyroll.core import Unit
+
+                def observe(self, cycle):
+                    if cycle:
+                        return None
+                    value = yield
+                    return value
+                ctx.append(Unit.OutProfile.velocity(observe, wrapper=True))
+                ctx.append(Unit.InProfile.velocity(observe, wrapper=True))
             if spread == 'three-roll':
                 from pyroll.core import ThreeRollPass, BaseRollPass
                 ctx.append(BaseRollPass.Profile.flow_stress(flow_stress))
